@@ -183,7 +183,9 @@ func (s *VerifSched) write(t *schedThread, kind string) {
 		isOwnFlush := t.store == nil && s.stmtKind == "create"
 		if !isOwnFlush {
 			msg := fmt.Sprintf("%s written by %s between the statement's first change and the completion of its log append (statement: %s)", kind, t.name, s.stmtKind)
-			if s.LazyWindow {
+			if s.LazyWindow && t.store != nil {
+				// (the flusher may get the lock between the refused statement's return and the end of its
+				// bracket; a write by the statement's own thread is inside the statement whatever follows)
 				s.heldBack = append(s.heldBack, msg)
 			} else {
 				s.problem("write-inside-statement", "%s", msg)
